@@ -877,6 +877,49 @@ fn gen_c12(tier: &Tier, rng: &mut Rng, w: usize, nw: usize, out: &mut Vec<Case>)
             out.push(Case::new("int-status", vec![format!("stream {} 1", tok(&y))]).with_aux(vec!["s".into(), hex(&bytes)]));
         }
     }
+    // (b-wide) numeric fields declaring more than 8 data bytes, with that many bytes really present (so that
+    // a parser working with a narrowed width - e.g. the length modulo 2^8 or 2^16 - would find a valid-looking
+    // 1..8 byte integer): widths around 2^8, 2^9 and 2^16 and just above 8
+    if w == 1 % nw {
+        let mut widths: Vec<usize> = (9..=24).collect();
+        for base in [256usize, 512, 65536] {
+            for d in 0..=9 {
+                widths.push(base + d);
+                if d > 0 && d <= 3 {
+                    widths.push(base - d);
+                }
+            }
+        }
+        for wdt in widths {
+            for signed in [false, true] {
+                let mut bytes: Vec<u8> = (0..wdt).map(|_| rng.byte()).collect();
+                bytes[0] = *rng.pick(&[0x00, 0x7f, 0x80, 0xff, bytes[0]]);
+                let mut k = 1;
+                while ((wdt + k) as u64) >= 1u64 << (4 * k) {
+                    k += 1;
+                }
+                let mut v = Vec::new();
+                Enc::tlf_raw(if signed { 5 } else { 6 }, (wdt + k) as u64, k, &mut v);
+                v.extend_from_slice(&bytes);
+                let mut x = glr_prefix();
+                x.push(0x71);
+                x.extend_from_slice(&[0x77, 0x01, 0x01, 0x01, 0x01, 0x01]);
+                x.extend_from_slice(&v);
+                x.push(0x01);
+                out.push(
+                    Case::new("int-value", vec![format!("stream {} 1", tok(&x))]).with_aux(vec![if signed { "i".into() } else { "u".into() }, hex(&bytes)]),
+                );
+                if !signed {
+                    let mut y = glr_prefix();
+                    y.push(0x71);
+                    y.extend_from_slice(&[0x77, 0x01]);
+                    y.extend_from_slice(&v);
+                    y.extend_from_slice(&[0x01, 0x01, 0x01, 0x01, 0x01]);
+                    out.push(Case::new("int-status", vec![format!("stream {} 1", tok(&y))]).with_aux(vec!["s".into(), hex(&bytes)]));
+                }
+            }
+        }
+    }
     // (b') fixed-width positions: group-no / abort-on-error (u8), scaler (i8), unit (u8), time (u32), body tag (u32)
     for _ in 0..ni / 2 {
         let wdt = rng.range(0, 6);
